@@ -270,6 +270,22 @@ func runCase(tarEnts []enumx.Ent, list []string, allow bool, c cfg) (o obs, f *f
 	if ms := multiset(out); ms != multiset(exp) {
 		return o, fail(cls("entries/lost-or-duplicated"), "the multiset of entries changed; %s", desc())
 	}
+	// a directory entry that is an ancestor of a file of the leading group must precede that file
+	// (and hence the landmark), whatever else is wrong with the order
+	pos := map[string]int{}
+	for i, e := range out {
+		pos[enumx.Clean(e.Hdr.Name)] = i
+	}
+	for _, li := range lead {
+		n := enumx.Clean(dedup[li].Hdr.Name)
+		parts := strings.Split(n, "/")
+		for k := 1; k < len(parts); k++ {
+			anc := strings.Join(parts[:k], "/")
+			if ai, ok := pos[anc]; ok && have[anc] && ai > pos[n] {
+				return o, fail("order/ancestor-directory-behind-prioritized-file", "directory %q has a tar entry and is an ancestor of the prioritized %q, but is laid out after it (entry %d vs %d; landmark is entry %d); %s", anc, n, ai, pos[n], lmIdx, desc())
+			}
+		}
+	}
 	if lmIdx != len(lead) {
 		return o, fail(cls("order/leading-group"), "the landmark is entry %d, the leading group has %d entries; %s", lmIdx, len(lead), desc())
 	}
@@ -402,6 +418,41 @@ var tiers = map[string]bounds{
 	"thorough": {maxTar: 4, rule: map[int]string{0: "FFFF", 1: "FFFF", 2: "FFFF", 3: "FFFF", 4: "FFR-"}},
 }
 
+// evalPair runs one (tar, list) input under both allow-not-found settings and every configuration of cs.
+func evalPair(res *runner.Result, seen map[string]bool, es []enumx.Ent, list []string, cs []cfg) bool {
+	for _, allow := range []bool{false, true} {
+		for _, c := range cs {
+			o, f := runCase(es, list, allow, c)
+			res.Evaluations++
+			res.Transitions += int64(len(list))
+			if f != nil {
+				if f.class == "harness" {
+					res.Broken = f.msg
+					return false
+				}
+				k := "C14/" + f.class
+				res.Outcomes["VIOLATION "+k]++
+				if !seen[k] {
+					seen[k] = true
+					r, m := minimize(replay{es, list, allow, c}, f)
+					res.Violations = append(res.Violations, runner.Violation{Key: k,
+						Msg:    fmt.Sprintf("input tar %s, prioritized %q, allow-not-found=%v, config %s\n%s", enumx.DescribeEnts(r.Ents), r.List, r.Allow, r.Cfg, m.msg),
+						Replay: r})
+				}
+				continue
+			}
+			if o.nontrivial {
+				res.Nontrivial++
+			}
+			res.Outcomes[o.class]++
+			if len(res.Samples) < 2 && o.nontrivial && len(list) == 2 {
+				res.Samples = append(res.Samples, map[string]any{"tar": enumx.DescribeEnts(es), "prioritized": list, "allow_not_found": allow, "config": c, "observation": o.class})
+			}
+		}
+	}
+	return true
+}
+
 func enumPart() runner.Part {
 	return runner.Part{
 		Name:   "enum",
@@ -449,35 +500,8 @@ func enumPart() runner.Part {
 					for _, l := range li {
 						list = append(list, listAlphabet[l])
 					}
-					for _, allow := range []bool{false, true} {
-						for _, c := range cs {
-							o, f := runCase(es, list, allow, c)
-							res.Evaluations++
-							res.Transitions += int64(len(list))
-							if f != nil {
-								if f.class == "harness" {
-									res.Broken = f.msg
-									return false
-								}
-								k := "C14/" + f.class
-								res.Outcomes["VIOLATION "+k]++
-								if !seen[k] {
-									seen[k] = true
-									r, m := minimize(replay{es, list, allow, c}, f)
-									res.Violations = append(res.Violations, runner.Violation{Key: k,
-										Msg:    fmt.Sprintf("input tar %s, prioritized %q, allow-not-found=%v, config %s\n%s", enumx.DescribeEnts(r.Ents), r.List, r.Allow, r.Cfg, m.msg),
-										Replay: r})
-								}
-								continue
-							}
-							if o.nontrivial {
-								res.Nontrivial++
-							}
-							res.Outcomes[o.class]++
-							if len(res.Samples) < 2 && o.nontrivial && len(list) == 2 {
-								res.Samples = append(res.Samples, map[string]any{"tar": enumx.DescribeEnts(es), "prioritized": list, "allow_not_found": allow, "config": c, "observation": o.class})
-							}
-						}
+					if !evalPair(res, seen, es, list, cs) {
+						return false
 					}
 					return true
 				})
@@ -489,19 +513,82 @@ func enumPart() runner.Part {
 			res.Extra = map[string]any{"tar_alphabet": enumx.DescribeEnts(tarAlphabet), "list_alphabet": listAlphabet, "bounds(tar entries -> config set per list length 0..3)": bd.rule, "config_sets": map[string]int{"F": len(sets['F']), "R": len(sets['R']), "M": len(sets['M'])}, "invalid_shapes_skipped(dangling hardlink)": invalid}
 			return res
 		},
-		Replay: func(ctx *runner.Ctx, raw json.RawMessage) (string, error) {
+		Replay: replayFn,
+	}
+}
+
+func replayFn(ctx *runner.Ctx, raw json.RawMessage) (string, error) {
+	os.Setenv("TMPDIR", ctx.Scratch)
+	var r replay
+	if err := json.Unmarshal(raw, &r); err != nil {
+		return "", err
+	}
+	o, f := runCase(r.Ents, r.List, r.Allow, r.Cfg)
+	d := fmt.Sprintf("%s prioritized=%q allow=%v %s", enumx.DescribeEnts(r.Ents), r.List, r.Allow, r.Cfg)
+	if f != nil {
+		return d, fmt.Errorf("%s: %s", f.class, f.msg)
+	}
+	return d + "\n" + o.class, nil
+}
+
+// deepPart: two directory levels. Every ordering of every subset of {u/, u/l/, u/l/f, a, h=>u/l/f}
+// (so with and without the intermediate and the top directory entry) x every list of length <= 2
+// over the names present, config set M.
+func deepPart() runner.Part {
+	pool := []enumx.Ent{
+		{Name: "u/", Type: tar.TypeDir, Mode: 0o755},
+		{Name: "u/l/", Type: tar.TypeDir, Mode: 0o755},
+		{Name: "u/l/f", Type: tar.TypeReg, Size: 9, Mode: 0o644},
+		{Name: "a", Type: tar.TypeReg, Size: 4, Mode: 0o644},
+		{Name: "h", Type: tar.TypeLink, Link: "u/l/f", Mode: 0o644},
+	}
+	return runner.Part{
+		Name:   "deep",
+		Shards: 8,
+		Run: func(ctx *runner.Ctx) *runner.Result {
 			os.Setenv("TMPDIR", ctx.Scratch)
-			var r replay
-			if err := json.Unmarshal(raw, &r); err != nil {
-				return "", err
-			}
-			o, f := runCase(r.Ents, r.List, r.Allow, r.Cfg)
-			d := fmt.Sprintf("%s prioritized=%q allow=%v %s", enumx.DescribeEnts(r.Ents), r.List, r.Allow, r.Cfg)
-			if f != nil {
-				return d, fmt.Errorf("%s: %s", f.class, f.msg)
-			}
-			return d + "\n" + o.class, nil
+			res := &runner.Result{Outcomes: map[string]int{}}
+			seen := map[string]bool{}
+			cs := cfgs('M')
+			idx := -1
+			enumx.Sequences(len(pool), len(pool), func(seq []int) bool {
+				used := map[int]bool{}
+				var es []enumx.Ent
+				var names []string
+				for _, x := range seq {
+					if used[x] {
+						return true
+					}
+					used[x] = true
+					es = append(es, pool[x])
+					names = append(names, pool[x].Name)
+				}
+				if !used[2] || !validEnts(es) {
+					return true // the nested file is always present; no dangling hardlink
+				}
+				sort.Strings(names)
+				enumx.Sequences(len(names), 2, func(li []int) bool {
+					idx++
+					if idx%ctx.Of != ctx.Shard {
+						return true
+					}
+					if time.Now().After(ctx.Deadline) {
+						res.Caps = []string{"time budget"}
+						return false
+					}
+					list := []string{}
+					for _, l := range li {
+						list = append(list, names[l])
+					}
+					res.States++
+					return evalPair(res, seen, es, list, cs)
+				})
+				return res.Broken == "" && len(res.Caps) == 0
+			})
+			res.Extra = map[string]any{"tar_pool(orderings of subsets containing u/l/f)": enumx.DescribeEnts(pool), "lists": "length <= 2 over the names present", "configs": len(cs)}
+			return res
 		},
+		Replay: replayFn,
 	}
 }
 
@@ -594,6 +681,7 @@ func main() {
 			"{a, /a, ./a, ../a, d/f, d/, /, h, e, zz(missing)} (a symbol that names no entry of the tar is represented by zz only), and every tar of 4 entries x lists of length <= 1 (thorough 2), " +
 			"x allow-not-found {off,on} x config set F = chunk size {3,8} x min-chunk-size {0,64,256} x workers {1,2,3} (WithParallelism; GOMAXPROCS 2,3 for chunk 3/min 0; workers 1 only under min 64, 1 and 3 under 256). " +
 			"quick uses R (chunk 3 only) for 3-entry tars with 2-element lists and M (chunk 3 x {min 0 workers 1, min 0 workers 3, min 256}) for 4-entry tars; thorough uses R for 4-entry tars with 2-element lists. " +
+			"Part deep (two directory levels): every ordering of every subset of {u/, u/l/, u/l/f, a, h=>u/l/f} containing u/l/f x every list of length <= 2 over the names present x allow-not-found x config set M. " +
 			"Oracle: reference implementation of the layout contract + offsets of the TOC read by a from-the-spec reader. non-trivial = build where the leading group is not a prefix of the input order and other entries remain",
 		Assumptions: []string{
 			"archive/tar, compress/gzip and compress/flate are correct (they are the oracle)",
@@ -602,6 +690,6 @@ func main() {
 			"order inside one listed file's group: parent directories outermost first, then the hardlink target with its own prerequisites, then the file",
 		},
 		QuickBudget: budget(4 * time.Minute), ThoroughBudget: budget(30 * time.Minute),
-		Parts: func(tier string) []runner.Part { return []runner.Part{enumPart()} },
+		Parts: func(tier string) []runner.Part { return []runner.Part{deepPart(), enumPart()} },
 	})
 }
